@@ -10,7 +10,8 @@ import (
 // ---------- contract blocks ----------
 
 type Clause struct {
-	Kind    string // requires | ensures | invariant | decreases
+	Kind    string // requires | demands | ensures | invariant
+	CallSiteOnly bool // demands: checked at call sites (and then assumed there), NOT assumed when verifying the body
 	Props   []string
 	Reading Reading
 	Label   string
@@ -65,7 +66,7 @@ type SpecDB struct {
 }
 
 var clauseKeywords = map[string]bool{"func": true, "loop": true, "requires": true, "ensures": true, "modifies": true,
-	"sweep": true, "modular": true, "trusted": true, "invariant": true, "pure": true, "unroll": true, "names": true, "let": true, "end": true, "sums": true}
+	"sweep": true, "modular": true, "trusted": true, "invariant": true, "pure": true, "unroll": true, "names": true, "let": true, "end": true, "sums": true, "demands": true}
 
 func ParseSpecs(lines []SpecLine) *SpecDB {
 	db := &SpecDB{Contracts: map[string]*Contract{}, Pures: map[string]*PureDef{}}
@@ -132,7 +133,7 @@ func ParseSpecs(lines []SpecLine) *SpecDB {
 			c.Loops[key] = curLoop
 		case "end":
 			curLoop = nil
-		case "requires", "ensures", "invariant":
+		case "requires", "ensures", "invariant", "demands":
 			if cur == nil {
 				errf(it, "%s outside a func block", it.kw)
 				continue
@@ -144,6 +145,9 @@ func ParseSpecs(lines []SpecLine) *SpecDB {
 			}
 			cl.File, cl.Line = it.File, it.Line
 			switch it.kw {
+			case "demands":
+				cl.CallSiteOnly = true
+				cur.Requires = append(cur.Requires, cl)
 			case "requires":
 				cur.Requires = append(cur.Requires, cl)
 			case "ensures":
